@@ -72,6 +72,9 @@ func FindNaluTypes(sample []byte) []NaluType {
 		pos += 4
 		naluType := GetNaluType(sample[pos])
 		naluList = append(naluList, naluType)
+		if uint64(pos)+uint64(naluLength) > uint64(length) {
+			break // length field points beyond the sample
+		}
 		pos += naluLength
 	}
 	return naluList
@@ -90,6 +93,9 @@ func FindNaluTypesUpToFirstVideoNALU(sample []byte) []NaluType {
 		pos += 4
 		naluType := GetNaluType(sample[pos])
 		naluList = append(naluList, naluType)
+		if uint64(pos)+uint64(naluLength) > uint64(length) {
+			break // length field points beyond the sample
+		}
 		pos += naluLength
 		if IsVideoNaluType(naluType) {
 			break // first video nalu
@@ -107,12 +113,18 @@ func IsIDRSample(sample []byte) bool {
 func ContainsNaluType(sample []byte, specificNalType NaluType) bool {
 	var pos uint32 = 0
 	length := len(sample)
+	if length < 4 {
+		return false
+	}
 	for pos < uint32(length-4) {
 		naluLength := binary.BigEndian.Uint32(sample[pos : pos+4])
 		pos += 4
 		naluType := GetNaluType(sample[pos])
 		if naluType == specificNalType {
 			return true
+		}
+		if uint64(pos)+uint64(naluLength) > uint64(length) {
+			break // length field points beyond the sample
 		}
 		pos += naluLength
 	}
@@ -144,8 +156,14 @@ func GetParameterSets(sample []byte) (sps [][]byte, pps [][]byte) {
 	var pos uint32 = 0
 naluLoop:
 	for pos < sampleLength {
+		if uint64(pos)+4 >= uint64(sampleLength) {
+			break // no room for a length field and a NALU header
+		}
 		naluLength := binary.BigEndian.Uint32(sample[pos : pos+4])
 		pos += 4
+		if uint64(pos)+uint64(naluLength) > uint64(sampleLength) {
+			break // length field points beyond the sample
+		}
 		naluHdr := sample[pos]
 		switch naluType := GetNaluType(naluHdr); {
 		case naluType == NALU_SPS:
